@@ -341,7 +341,7 @@ theorem lvt_arith (x e : Nat) (hx : x ≤ 11172 - 28) (hm : x % 28 = 0) (he : e 
     ¬(x + e ≥ 11172) ∧ (x + e) % 28 ≠ 0 ∧ (x + e) / 28 * 28 = x ∧ (x + e) % 28 = e := by
   refine ⟨by omega, by omega, by omega, by omega⟩
 
-theorem hangul_rt2 (H : Hangul) (hH : HangulStd H) (a b s : Nat) (hb : b ≠ H.tBase)
+theorem hangul_rt2 (H : Hangul) (hH : HangulStd H) (a b s : Nat)
     (h : composeHangul H a b = some s) : decomposeHangul H s = some (a, b) := by
   obtain ⟨h1, h2, h3, h4, h5, h6, h7, h8, h9⟩ := hH
   have hW : (2:Nat) ^ 32 = 4294967296 := by decide
@@ -931,9 +931,29 @@ theorem rotateRight1_snoc (l : List Info) (x : Info) : rotateRight1 (l ++ [x]) =
   unfold rotateRight1
   simp
 
-theorem sortStep_strip (K : Consts) (seg : List Info) (x : Info) (tl : List Info) :
-    (sortStep K seg x tl).1.map strip = insertRight (seg.map strip) (strip x) ∧
-    (sortStep K seg x tl).2.map strip = tl.map strip := by
+theorem extendStart_strip (K : Consts) (pre : List Info) (c0 cluster : Nat) :
+    (extendStart K pre c0 cluster).map strip = pre.map strip := by
+  unfold extendStart
+  rw [List.map_append, map_strip_setCluster, ← List.map_append, ← List.reverse_append,
+    List.takeWhile_append_dropWhile, List.reverse_reverse]
+
+theorem mergeClusters_strip (K : Consts) (pre : List Info) (x : Info) (xs tl : List Info) :
+    (mergeClusters K pre x xs tl).1.map strip = pre.map strip ∧
+    (mergeClusters K pre x xs tl).2.1.map strip = (x :: xs).map strip ∧
+    (mergeClusters K pre x xs tl).2.2.map strip = tl.map strip := by
+  simp only [mergeClusters]
+  refine ⟨?_, map_strip_setCluster _ _ _, ?_⟩
+  · split
+    · exact extendStart_strip _ _ _ _
+    · rfl
+  · split
+    · rw [List.map_append, map_strip_setCluster, ← List.map_append, takeWhile_append_drop_length]
+    · simp
+
+theorem sortStep_strip (K : Consts) (pre seg : List Info) (x : Info) (tl : List Info) :
+    (sortStep K pre seg x tl).1.map strip = pre.map strip ∧
+    (sortStep K pre seg x tl).2.1.map strip = insertRight (seg.map strip) (strip x) ∧
+    (sortStep K pre seg x tl).2.2.map strip = tl.map strip := by
   rw [insertRight_strip]
   unfold sortStep insertRight
   simp only
@@ -943,38 +963,38 @@ theorem sortStep_strip (K : Consts) (seg : List Info) (x : Info) (tl : List Info
   split
   · rename_i hm
     rw [hm, List.append_nil] at hsplit
-    constructor
-    · rw [← hsplit]
-      have hm' : seg.reverse.takeWhile (fun y => decide (y.mcc > x.mcc)) = [] := List.reverse_eq_nil_iff.mp hm
-      simp [hm']
-    · rfl
+    refine ⟨rfl, ?_, rfl⟩
+    rw [← hsplit]
+    have hm' : seg.reverse.takeWhile (fun y => decide (y.mcc > x.mcc)) = [] := List.reverse_eq_nil_iff.mp hm
+    simp [hm']
   · rename_i m ms hm
     rw [hm]
-    constructor
-    · simp only [mergeClusters]
+    have mc := mergeClusters_strip K (pre ++ (seg.reverse.dropWhile (fun y => y.mcc > x.mcc)).reverse) m (ms ++ [x]) tl
+    have ml := length_mergeClusters K (pre ++ (seg.reverse.dropWhile (fun y => y.mcc > x.mcc)).reverse) m (ms ++ [x]) tl
+    refine ⟨?_, ?_, mc.2.2⟩
+    · rw [List.map_take, mc.1, List.map_append, List.take_left' (by simp)]
+    · rw [List.map_append, List.map_drop, mc.1, List.map_append, List.drop_left' (by simp)]
+      -- the merged range, rotated
+      simp only [mergeClusters]
       have : (m :: (ms ++ [x])).map (setCluster K · (minCluster m.cluster (ms ++ [x]))) =
           ((m :: ms).map (setCluster K · (minCluster m.cluster (ms ++ [x])))) ++
             [setCluster K x (minCluster m.cluster (ms ++ [x]))] := by simp
       rw [this, rotateRight1_snoc]
-      simp only [List.map_append, List.map_cons, strip_setCluster, map_strip_setCluster]
-    · simp only [mergeClusters]
-      split
-      · rw [List.map_append, map_strip_setCluster, ← List.map_append, takeWhile_append_drop_length]
-      · simp
+      simp only [List.map_cons, List.map_append, strip_setCluster, map_strip_setCluster]
 
-theorem sortGo_strip (K : Consts) (seg : List Info) (n : Nat) (tl : List Info) (h : n ≤ tl.length) :
-    (sortGo K seg n tl).map strip =
-      insertAll (seg.map strip) ((tl.take n).map strip) ++ (tl.drop n).map strip := by
-  induction n generalizing seg tl with
+theorem sortGo_strip (K : Consts) (pre seg : List Info) (n : Nat) (tl : List Info) (h : n ≤ tl.length) :
+    (sortGo K pre seg n tl).map strip =
+      pre.map strip ++ (insertAll (seg.map strip) ((tl.take n).map strip) ++ (tl.drop n).map strip) := by
+  induction n generalizing pre seg tl with
   | zero => simp [sortGo, insertAll]
   | succ n ih =>
     cases tl with
     | nil => simp at h
     | cons x tl =>
       simp only [sortGo]
-      have hs := sortStep_strip K seg x tl
-      rw [ih _ _ (by rw [length_sortStep]; simpa using h)]
-      rw [hs.1, List.map_take, List.map_drop, hs.2]
+      have hs := sortStep_strip K pre seg x tl
+      rw [ih _ _ _ (by rw [(length_sortStep K pre seg x tl).2.2]; simpa using h)]
+      rw [hs.1, hs.2.1, List.map_take, List.map_drop, hs.2.2]
       simp [insertAll]
 
 /-! ### the pure insertion sort is a stable sort by modified ccc -/
@@ -1138,14 +1158,14 @@ theorem dropWhile_nz_head (r : List Info) : ∀ y t, r.dropWhile (fun i => i.mcc
 theorem insertAll_length (seg xs : List Info) : (insertAll seg xs).length = seg.length + xs.length := by
   rw [(insertAll_perm seg xs).length_eq, List.length_append]
 
-theorem round2_strip (K : Consts) (l : List Info) :
-    (round2 K l).map strip = canonReorder K.maxMarks (l.map strip) := by
-  fun_induction round2 K l with
-  | case1 => simp [canonReorder]
-  | case2 x r hx ih =>
-    rw [List.map_cons, List.map_cons, canonReorder]
-    simp [mcc_strip, hx, ih]
-  | case3 x r hx ih =>
+theorem round2_strip (K : Consts) (pre l : List Info) :
+    (round2 K pre l).map strip = pre.map strip ++ canonReorder K.maxMarks (l.map strip) := by
+  fun_induction round2 K pre l with
+  | case1 pre => simp [canonReorder]
+  | case2 pre x r hx ih =>
+    rw [ih, List.map_cons, canonReorder]
+    simp [mcc_strip, hx]
+  | case3 pre x r hx ih =>
     have hsplit : x :: r = (x :: r.takeWhile (fun i => i.mcc ≠ 0)) ++ r.dropWhile (fun i => i.mcc ≠ 0) := by
       simp [List.takeWhile_append_dropWhile]
     have htake : (x :: r).take (runLen r) = x :: r.takeWhile (fun i => i.mcc ≠ 0) := by
@@ -1156,7 +1176,8 @@ theorem round2_strip (K : Consts) (l : List Info) :
       rw [List.drop_left' (by simp [runLen]; omega)]
     -- the sorted buffer, stripped
     have hM : ∃ S, S.length = runLen r ∧
-        (sortRun K (runLen r) (x :: r)).map strip = S ++ (r.dropWhile (fun i => i.mcc ≠ 0)).map strip ∧
+        (sortRun K pre (runLen r) (x :: r)).map strip =
+          pre.map strip ++ (S ++ (r.dropWhile (fun i => i.mcc ≠ 0)).map strip) ∧
         S = (if 1 + ((r.map strip).takeWhile (fun i => i.mcc ≠ 0)).length ≤ K.maxMarks
           then insertAll [] (strip x :: (r.map strip).takeWhile (fun i => i.mcc ≠ 0))
           else strip x :: (r.map strip).takeWhile (fun i => i.mcc ≠ 0)) := by
@@ -1168,22 +1189,28 @@ theorem round2_strip (K : Consts) (l : List Info) :
       · rw [if_pos hle, if_pos (hn ▸ hle)]
         refine ⟨_, ?_, ?_, rfl⟩
         · rw [insertAll_length]; simp [runLen]; omega
-        · rw [sortGo_strip K [] _ _ (runLen_le x r), htake, hdrop]
+        · rw [sortGo_strip K pre [] _ _ (runLen_le x r), htake, hdrop]
           simp
       · rw [if_neg hle, if_neg (hn ▸ hle)]
         refine ⟨_, ?_, ?_, rfl⟩
         · simp [runLen]; omega
         · conv => lhs; rw [hsplit]
-          rw [List.map_append, List.map_cons]
+          rw [List.map_append, List.map_append, List.map_cons]
     obtain ⟨S, hS, hM, hSdef⟩ := hM
-    rw [List.map_append, List.map_take, ih, List.map_drop, hM]
-    have e1 : (S ++ (r.dropWhile (fun i => i.mcc ≠ 0)).map strip).take (runLen r + 1) =
-        S ++ ((r.dropWhile (fun i => i.mcc ≠ 0)).map strip).take 1 := by
-      rw [List.take_append, hS]; simp [List.take_of_length_le (Nat.le_succ_of_le (Nat.le_of_eq hS))]
-    have e2 : (S ++ (r.dropWhile (fun i => i.mcc ≠ 0)).map strip).drop (runLen r + 1) =
+    rw [ih, List.map_take, List.map_drop, hM]
+    have hpl : (pre.map strip).length = pre.length := List.length_map _
+    have e1 : (pre.map strip ++ (S ++ (r.dropWhile (fun i => i.mcc ≠ 0)).map strip)).take (pre.length + runLen r + 1) =
+        pre.map strip ++ (S ++ ((r.dropWhile (fun i => i.mcc ≠ 0)).map strip).take 1) := by
+      rw [List.take_append, hpl, List.take_of_length_le (by rw [hpl]; omega)]
+      congr 1
+      have : pre.length + runLen r + 1 - pre.length = runLen r + 1 := by omega
+      rw [this, List.take_append, hS]; simp [List.take_of_length_le (Nat.le_succ_of_le (Nat.le_of_eq hS))]
+    have e2 : (pre.map strip ++ (S ++ (r.dropWhile (fun i => i.mcc ≠ 0)).map strip)).drop (pre.length + runLen r + 1) =
         ((r.dropWhile (fun i => i.mcc ≠ 0)).map strip).drop 1 := by
-      rw [List.drop_append, hS]; simp [List.drop_of_length_le (Nat.le_succ_of_le (Nat.le_of_eq hS))]
-    rw [e1, e2, List.append_assoc, canonReorder_head_zero]
+      rw [List.drop_append, hpl, List.drop_of_length_le (by rw [hpl]; omega), List.nil_append]
+      have : pre.length + runLen r + 1 - pre.length = runLen r + 1 := by omega
+      rw [this, List.drop_append, hS]; simp [List.drop_of_length_le (Nat.le_succ_of_le (Nat.le_of_eq hS))]
+    rw [e1, e2, List.append_assoc, List.append_assoc, canonReorder_head_zero]
     · rw [List.map_cons, canonReorder]
       simp only [mcc_strip, hx, ↓reduceIte]
       rw [← hSdef, dropWhile_nz_strip]
@@ -1395,8 +1422,8 @@ theorem normalize_cluster (U : UData) (F : Font) (K : Consts) (fuel pref : Nat)
       | none => none
       | some (o, f) =>
         if pref = 2 ∨ pref = 3 ∨ pref = 4 then
-          some (round3 U F K (if f &&& K.flagCGJ ≠ 0 then cgjRound (round2 K o) else round2 K o) f)
-        else some (if f &&& K.flagCGJ ≠ 0 then cgjRound (round2 K o) else round2 K o, f) := by
+          some (round3 U F K (if f &&& K.flagCGJ ≠ 0 then cgjRound (round2 K [] o) else round2 K [] o) f)
+        else some (if f &&& K.flagCGJ ≠ 0 then cgjRound (round2 K [] o) else round2 K [] o, f) := by
   unfold normalize
   simp only [List.isEmpty_cons, Bool.false_eq_true, ↓reduceIte]
   rw [round1_cluster U F K fuel _ _ s m ms flags true hm hvs]
